@@ -63,9 +63,10 @@ type lockIn struct {
 }
 
 type caseIn struct {
-	Kind string  `json:"kind"` // dec | lock
+	Kind string  `json:"kind"` // dec | lock | e2e
 	Dec  *decIn  `json:"dec,omitempty"`
 	Lock *lockIn `json:"lock,omitempty"`
+	E2E  *e2eIn  `json:"e2e,omitempty"`
 }
 
 type event struct {
@@ -746,7 +747,8 @@ func caseFromJSON(m map[string]any) caseIn {
 	if err := json.NewDecoder(strings.NewReader(string(b))).Decode(&c); err != nil {
 		panic(err)
 	}
-	if c.Kind == "dec" && c.Dec == nil || c.Kind == "lock" && c.Lock == nil || (c.Kind != "dec" && c.Kind != "lock") {
+	if c.Kind == "dec" && c.Dec == nil || c.Kind == "lock" && c.Lock == nil || c.Kind == "e2e" && c.E2E == nil ||
+		(c.Kind != "dec" && c.Kind != "lock" && c.Kind != "e2e") {
 		panic("ill-formed case")
 	}
 	return c
@@ -773,6 +775,9 @@ func main() {
 			ob := runDec(*c.Dec)
 			ob.FixFallback = fx
 			w.Add(map[string]any{"input": c, "observed": ob}, coqDec(*c.Dec, ob))
+		case "e2e":
+			ob := runE2E(*c.E2E)
+			w.Add(map[string]any{"input": c, "observed": ob}, coqE2E(*c.E2E, ob))
 		case "lock":
 			ob := runLock(*c.Lock)
 			w.Add(map[string]any{"input": c, "observed": ob},
@@ -800,6 +805,12 @@ func main() {
 				continue
 			}
 			emit(c)
+		}
+	case o.Mode == "e2e":
+		root := hx.NewRand(o.Seed)
+		for i := 0; i < o.N; i++ {
+			e := genE2E(root.Fork(uint64(o.Shard)<<32 | uint64(i)))
+			emit(caseIn{Kind: "e2e", E2E: &e})
 		}
 	case o.Mode == "all":
 		allDec(func(in decIn) { d := in; emit(caseIn{Kind: "dec", Dec: &d}) }, o.Shard, o.Shards)
